@@ -93,6 +93,10 @@ def run_pt(shape):
         with bound(P, Rotation=FRot, Merge=FMerge, print=noprint, np=NPProxy()):
             u1 = FUniverse(sarr([[SR(v) for v in r] for r in x1]), sarr([SR(m) for m in w1]), names1)
             u2 = FUniverse(sarr([[SR(v) for v in r] for r in x2]), sarr([SR(m) for m in w2]), names2)
+            # another pseudotrajectory of the same process (other molecules, other grid rows) is generated completely first
+            d1 = FUniverse(sarr([[0.5, -1.0, 2.0]]), sarr([3.0]), ["D0"])
+            d2 = FUniverse(sarr([[1.0, 0.0, 0.0], [0.0, 2.0, 0.0]]), sarr([1.0, 2.0]), ["E0", "E1"])
+            list(P.Pseudotrajectory(d1, d2, sarr([[1.0, 2.0, 3.0, 0.0, 0.6, 0.0, 0.8], [0.0, -1.0, 0.5, 1.0, 0.0, 0.0, 0.0]])).generate_pseudotrajectory())
             if shape.get("history"):
                 # history: a first pseudotrajectory is started on the same molecules and abandoned after one frame
                 first = P.Pseudotrajectory(u1, u2, sarr([[SR(v) for v in g] for g in grid])).generate_pseudotrajectory()
@@ -329,6 +333,9 @@ def replay(cex):
                         if np.shape(got) != exp.shape or not np.allclose(got, exp, atol=tol):
                             bad.append(f"{tag}[{k}]")
             return {"reproduced": bool(bad), "detail": f"{bad[:6]}"}
+        dd1 = real_universe([[0.5, -1.0, 2.0]], [3.0], ["D0"])       # the decoy of the symbolic run
+        dd2 = real_universe([[1.0, 0.0, 0.0], [0.0, 2.0, 0.0]], [1.0, 2.0], ["E0", "E1"])
+        list(P.Pseudotrajectory(dd1, dd2, np.array([[1.0, 2.0, 3.0, 0.0, 0.6, 0.0, 0.8], [0.0, -1.0, 0.5, 1.0, 0.0, 0.0, 0.0]])).generate_pseudotrajectory())
         if shape.get("history"):
             first = P.Pseudotrajectory(u1, u2, grid).generate_pseudotrajectory()
             next(first)
